@@ -576,11 +576,16 @@ func (rule *RuleExpression) checkWorkflowCall(c *WorkflowCall) {
 				// The value has ${{ }} but no type was returned since checking it caused some errors.
 				// They were already reported and the type of the value is unknown
 				ty = AnyType{}
-			} else if !i.Value.Quoted && v != "" {
+			} else if !i.Value.Quoted && v != "" && !strings.ContainsAny(v, "#\n") {
+				// A text which includes a comment or a line break is the content of a block scalar. It is
+				// a string and must not be read as YAML document
 				var y interface{}
 				if err := yaml.Unmarshal([]byte(v), &y); err == nil {
 					switch y.(type) {
 					case nil:
+						if v != "~" && !strings.EqualFold(v, "null") {
+							break // Empty document such as "---"
+						}
 						ty = NullType{}
 					case bool:
 						ty = BoolType{}
